@@ -759,3 +759,64 @@ def summarize(counters, extra, tier):
             'operation instances from 6 start tables' % (p['depth'],
                                                           len(OP_NAMES)),
             'operation_instances': OP_NAMES}
+
+
+def san_indices(tier):
+    p = plan(tier)
+    return list(range(p['nexh'], p['nexh'] + (150 if tier == 'quick' else
+                                              3000)))
+
+
+def extra_lane(tier, seed):
+    """Suite-under-monitors lane (DESIGN.md section 7): the repository's own
+    tests with the class invariant installed.  Returns (violations, info,
+    inconclusive_reasons)."""
+    import json
+    import subprocess
+    import tempfile
+    from vm import common
+    fd, out = tempfile.mkstemp(prefix='c05-suite-', suffix='.json',
+                               dir=common.BUILD)
+    os.close(fd)
+    env = dict(os.environ)
+    env['PYTHONPATH'] = os.pathsep.join([common.VERIF, common.DEPS,
+                                         env.get('PYTHONPATH', '')])
+    env['VM_PLUGIN_OUT'] = out
+    env['PYTHONDONTWRITEBYTECODE'] = '1'
+    try:
+        try:
+            subprocess.run([common.PY, '-m', 'pytest', '-q', '-p',
+                            'no:cacheprovider', '-p', 'vm.pytest_plugin',
+                            '-x' if False else '-q', 'biom'], cwd=common.REPO,
+                           env=env, capture_output=True, text=True,
+                           timeout=1500)
+        except subprocess.TimeoutExpired:
+            return [], {'status': 'watchdog'}, ['suite lane hit the watchdog']
+        try:
+            d = json.load(open(out))
+        except Exception:
+            return [], {'status': 'no-output'}, ['suite lane wrote no result']
+    finally:
+        if os.path.exists(out):
+            os.remove(out)
+    viol = []
+    excluded = []
+    other = []
+    for f in d['fired']:
+        if f['kind'] != 'invariant':
+            other.append(f['node'])
+        elif f['excluded']:
+            excluded.append({'node': f['node'], 'why': f['why']})
+        else:
+            viol.append({'sig': 'C05/suite-under-invariant/' +
+                         f['node'].split('::')[-1],
+                         'message': 'class invariant fired inside %s, whose '
+                         'source does not write private state: %s' %
+                         (f['node'], f['excerpt'])})
+    info = {'tests_collected': d['tests_collected'],
+            'invariant_evaluations': d['invariant_evaluations'],
+            'fired_and_excluded_by_rule': excluded,
+            'tests_failing_for_other_reasons': other}
+    inc = [] if d['invariant_evaluations'] > 0 else \
+        ['suite lane: the invariant was never evaluated']
+    return viol, info, inc
